@@ -1,5 +1,5 @@
 from armulator.armv6.arm_exceptions import EndOfInstruction
-from armulator.armv6.bits_ops import add, lowest_set_bit_ref, bit_at
+from armulator.armv6.bits_ops import add, lowest_set_bit_ref, bit_at, bit_count
 from armulator.armv6.opcodes.opcode import Opcode
 
 
@@ -30,4 +30,4 @@ class Stm(Opcode):
                 if bit_at(self.registers, 15):
                     processor.mem_a_set(address, 4, processor.registers.get_pc())
                 if self.wback:
-                    processor.registers.set(self.n, add(processor.registers.get(self.n), 4 * write_count, 32))
+                    processor.registers.set(self.n, add(processor.registers.get(self.n), 4 * bit_count(self.registers, 1, 16), 32))
